@@ -48,3 +48,25 @@ pub fn __cmp_rev(a: &[u64], b: &[u64]) -> (r: core::cmp::Ordering)
         (r == core::cmp::Ordering::Less) <==> (exists|k: int| 0 <= k < a.len() && a[k] < b[k] && forall|j: int| k < j < a.len() ==> a[j] == b[j]),
         (r == core::cmp::Ordering::Greater) <==> (exists|k: int| 0 <= k < a.len() && a[k] > b[k] && forall|j: int| k < j < a.len() ==> a[j] == b[j]),
 { unimplemented!() }
+
+pub open spec fn is_pow2_u32(x: u32) -> bool { x != 0 && (x & ((x - 1) as u32)) == 0 }
+
+//@ assume std::u32::is_power_of_two : std documentation: true iff self == 2^k for some k
+pub assume_specification[ u32::is_power_of_two ](x: u32) -> (r: bool)
+    ensures r == is_pow2_u32(x);
+
+//@ assume __from_utf8_unchecked : rule R1u: String::from_utf8_unchecked; its safety precondition (valid UTF-8; here: every byte ASCII) is the `requires`
+#[verifier::external_body]
+pub fn __from_utf8_unchecked(v: Vec<u8>) -> (r: String)
+    requires forall|i: int| 0 <= i < v@.len() ==> v@[i] < 128
+{ unimplemented!() }
+
+//@ assume __any_ge : rule R12d: std semantics of `s.iter().any(|&b| b >= x)`
+#[verifier::external_body]
+pub fn __any_ge(s: &[u8], x: u8) -> (r: bool)
+    ensures r == exists|i: int| 0 <= i < s.len() && s[i] >= x
+{ unimplemented!() }
+
+//@ assume std::<[T]>::reverse : std documentation: reverses the order of elements in the slice, in place
+pub assume_specification<T>[ <[T]>::reverse ](s: &mut [T])
+    ensures final(s)@.len() == old(s)@.len(), forall|i: int| 0 <= i < old(s)@.len() ==> final(s)@[i] == old(s)@[old(s)@.len() - 1 - i];
